@@ -19,6 +19,7 @@ PLAN = {
     "C07": ("c07", [("total", "Step", 4000, 100000), ("totalwalk", "Walk", 1000, 25000)]),
     "C08": ("c08", [("emit", "Step", 5000, 120000), ("walk", "Walk", 800, 20000)]),
     "C18": ("c18", [("perm", "Step", 6000, 150000)]),
+    "C09": ("c09", [("persist", "Persist", 4000, 100000)]),
 }
 
 ASSUME = {
@@ -31,6 +32,9 @@ ASSUME = {
             "spec snapshot = patterns, targets, branching types, sources, error settings (what the engine could write)"],
     "C07": ["panic trap + 8 s watchdog around every call; looping actions run under a 40 ms deadline", "a nil *State is not a state and is not generated"],
     "C08": ["ECMAScript renderings of the action language; native actions that return a partial execution with their error are the named deviation NativePartial (outside C08's quantifier)"],
+    "C09": ["specifications deterministic (DetSpec re-checked in TLA+); ECMAScript actions only; messages delivered one at a time; "
+            "round trip = encoding/json Marshal/Unmarshal of core.State (the form sio's store and mcrew's storage persist)",
+            "numbers compared by value (int64 and float64 encode alike), so only behavioural differences are reported"],
     "C18": ["permanent names = names ending in '!' (collected by the encoder)"],
 }
 
@@ -46,7 +50,7 @@ def run(pid, tier, seed, replay):
         out = os.path.join(wd, "replay_cases.ndjson")
         vlib.run([drv, "replay", replay, out], timeout=600)
         kind = json.load(open(replay))["case"].get("kind", "")
-        runs.append(("replay", "Walk" if "walk" in kind else "Step", out))
+        runs.append(("replay", "Persist" if kind == "persist" else ("Walk" if "walk" in kind else "Step"), out))
     else:
         for i, (mode, judge, nq, nt) in enumerate(plan):
             n = nq if tier == "quick" else nt
@@ -73,12 +77,12 @@ def run(pid, tier, seed, replay):
             for i, line in enumerate(f):
                 if i in (0, 7) and len(samples) < 4:
                     c = json.loads(line)
-                    o = c["out"]
+                    o = c.get("out") or {"runA": c.get("runA"), "saveAt": c.get("saveAt")}
                     samples.append({"source": name, "inputs": c.get("raw")[:1500],
-                                    "observed": {k: o[k] for k in o if k in ("outcome", "to", "consumed", "emitted", "cls", "stopped", "remaining")}})
+                                    "observed": {k: o[k] for k in o if k in ("outcome", "to", "consumed", "emitted", "cls", "stopped", "remaining", "runA", "saveAt")}})
         log("  judged %s with Trace_%s: %d cases, %d rejected (all properties)" % (name, judge, t["lines"], len(bad)))
     rc = rep.finish()
-    nontriv = sum(v for k, v in stats_all.items() if k.split(".")[1] in ("moved", "strides"))
+    nontriv = sum(v for k, v in stats_all.items() if k.split(".")[1] in ("moved", "strides", "applies"))
     vlib.write_evidence(pid, tier, seed, {
         "states": max(1, tot["distinct"]), "transitions": max(1, tot["generated"]),
         "traces_validated_against_impl": judged, "samples": samples or [{"note": "none"}],
